@@ -41,6 +41,15 @@ Theorem C02_paired_at_most_once : forall p, prime p -> p < 65536 -> forall cells
 Proof. exact pcoh_paired_once. Qed.
 Print Assumptions C02_paired_at_most_once.
 
+(* ... and exactly once when the minimal length discards nothing (e.g. m < 0 on a monotone filtration): every simplex of
+   dimension below dim_max = dimension() + persistence_dim_max occurs in the pair list (as a death, a birth, or an infinite interval) *)
+Theorem C02_paired_exactly_once_without_filter : forall p, prime p -> p < 65536 -> forall cells, valid cells -> forall flag m sw,
+  (forall b d, (b < d)%nat -> length_ok cells m b d = true) ->
+  forall k, (k < length cells)%nat -> Z.of_nat (dim_of cells k) < dim_max_of cells flag ->
+  In k (pair_keys (pcoh_gen sw (zp_ops p) cells flag m)).
+Proof. exact pcoh_complete. Qed.
+Print Assumptions C02_paired_exactly_once_without_filter.
+
 (* birth precedes death in the filtration, the death simplex has one dimension more, the pair carries the characteristic *)
 Theorem C02_birth_before_death : forall p, prime p -> p < 65536 -> forall cells, valid cells -> forall flag m sw b d ch,
   In (b, Some d, ch) (pcoh_gen sw (zp_ops p) cells flag m) ->
